@@ -961,3 +961,46 @@ def buffer_owner(ctx, rep, rule):
                 t = p.operand(blk.term["args"][1])
                 rep.check(rule, "recv_socket|recv(buf)", flow.mentions(t, lambda s: s == ("arg", 2)), "recv into the caller's buffer", "recv target is %s" % flow.fmt(t)[:80],
                           rs.loc(blk.term["line"]))
+
+
+def nested_lengths(ctx, rep, rule):
+    """The length operand of every push_tag_len in an encoder is the size of what was pushed since a mark taken in the same
+    function (buf.len() - start), a constant, or the length of the chunk just pushed; the bare buf.len() is allowed only for the
+    outermost message SEQUENCE (which relies on the buffer starting empty)."""
+    facts = ctx.facts
+    top = ("<snmp::msg::v1::SnmpV1Message<'_> as ber::BerEncoder>::push_ber", "<snmp::msg::v2c::SnmpV2cMessage<'_> as ber::BerEncoder>::push_ber",
+           "<snmp::msg::v3::msg::SnmpV3Message<'_> as ber::BerEncoder>::push_ber")
+    n = 0
+    for body in facts.body_list:
+        if not (body.impl_trait == "ber::BerEncoder" and body.name == "push_ber") and body.path != "buf::buffer::Buffer::push_tagged":
+            continue
+        prov = flow.Prov(body)
+        bare = 0
+        calls = sorted([b for b in body.calls() if (callee_path(b.term) or "").endswith("Buffer::push_tag_len")], key=lambda b: b.idx)
+        for i, b in enumerate(calls):
+            n += 1
+            t = prov.operand(b.term["args"][2])
+            t0 = t
+            while t[0] == "f" and t[2] == "0" and t[1][0] == "bin":
+                t = t[1]
+            kind = None
+            if t[0] == "const":
+                kind = "const"
+            elif t[0] == "bin" and t[1] in ("Sub", "SubWithOverflow") and all(_is_call(x, "Buffer::len") for x in (t[2], t[3])):
+                kind = "diff"
+            elif _is_call(t, "Buffer::len"):
+                kind = "bare"
+            elif _is_call(t, "[T]>::len") or _is_call(t, "::len"):
+                kind = "chunk"
+            key = "%s|push_tag_len#%d length" % (body.path, i)
+            if kind in ("const", "diff", "chunk"):
+                rep.ok(rule, key, {"const": "constant", "diff": "buf.len() - start", "chunk": "length of the chunk pushed"}[kind], body.loc(b.term["line"]), obligation=True)
+            elif kind == "bare":
+                last = b is calls[-1]
+                rep.check(rule, key, body.path in top and last, "outermost SEQUENCE: buf.len() of a buffer that started empty",
+                          "a nested element's length is taken from buf.len(): it is only right when the buffer held nothing before this element "
+                          "(wrong under privacy, where the cipher's buffer already holds the padding)", body.loc(b.term["line"]), obligation=True)
+            else:
+                rep.inconclusive(rule, key, "length operand %s not recognised" % flow.fmt(t0)[:80], body.loc(b.term["line"]))
+    if n < 14:
+        rep.violation(rule, "floor", "only %d push_tag_len calls in encoders, floor is 14" % n)
